@@ -22,6 +22,7 @@ struct C13World {
   std::map<int, int> got, want_chain;            // worker -> responses received / requests still to chain from the handler
   std::map<int, coap_session_t *> chain_session;
   int handler_runs = 0, events_seen = 0, nacks = 0;
+  bool nested_callbacks = false;
 };
 C13World *g = nullptr;
 thread_local int tl_cb_depth = 0;
@@ -91,16 +92,42 @@ coap_response_t resp_cb(coap_session_t *session, const coap_pdu_t *, const coap_
   return COAP_RESPONSE_OK;
 }
 
+void nested_callback_work(coap_session_t *session, int n);
 void nack_cb(coap_session_t *session, const coap_pdu_t *, const coap_nack_reason_t, const coap_mid_t) {
   Cb cb;
   g->nacks++;
   (void)coap_session_get_state(session);
+  if (g->nested_callbacks) nested_callback_work(session, 1000 + g->nacks);
+}
+
+void cache_data_free_cb(void *data) {
+  Cb cb;
+  g->w.count("probe.nested_callback");
+  free(data);
+}
+// A callback that libcoap makes with its lock held re-enters the API, and one of those calls makes libcoap run a second
+// lock-held callback (the release callback of a cache entry's application data); further API calls follow after that one returned.
+void nested_callback_work(coap_session_t *session, int n) {
+  coap_pdu_t *p = coap_new_pdu(COAP_MESSAGE_NON, COAP_REQUEST_CODE_GET, session);
+  if (!p) return;
+  std::string nm = "ev" + std::to_string(n);
+  coap_add_option(p, COAP_OPTION_URI_PATH, nm.size(), (const uint8_t *)nm.data());
+  coap_cache_entry_t *ce = coap_new_cache_entry(session, p, COAP_CACHE_NOT_RECORD_PDU, COAP_CACHE_IS_SESSION_BASED, 0);
+  if (ce) {
+    coap_cache_set_app_data(ce, malloc(8), cache_data_free_cb);
+    coap_delete_cache_entry(g->ctx, ce);
+  }
+  coap_delete_pdu(p);
+  (void)coap_new_message_id(session);
+  coap_session_reference(session);
+  coap_session_release(session);
 }
 
 int event_cb(coap_session_t *session, const coap_event_t ev) {
   Cb cb;
   g->events_seen++;
   if (ev == COAP_EVENT_SERVER_SESSION_NEW) { coap_session_reference(session); coap_session_release(session); }
+  if (g->nested_callbacks && (ev == COAP_EVENT_SERVER_SESSION_NEW || ev == COAP_EVENT_SERVER_SESSION_DEL) && (g->events_seen % 2) == 0) nested_callback_work(session, g->events_seen);
   return 0;
 }
 
@@ -128,6 +155,8 @@ struct C13 : Property {
     p["sched_seed"] = r.next() & 0xffffffff;
     static const double pp[] = {0.1, 0.3, 0.5, 0.9};
     p["preempt"] = pp[r.below(4)];
+    p["nested_callbacks"] = r.chance(0.5);
+    p["eintr"] = r.chance(0.5) ? 0.0 : r.chance(0.5) ? 0.05 : 0.3;      // probability that a blocking epoll_wait is interrupted by a signal (EINTR)
     int nw = (int)r.range(2, 6);
     json workers = json::array();
     for (int i = 0; i < nw; i++) {
@@ -161,6 +190,7 @@ struct C13 : Property {
     World &w = cw.w;
     w.begin(plan.value("sched_salt", 1ull), &res, verbose, false);
     cw.supported = coap_threadsafe_is_supported() != 0;
+    cw.nested_callbacks = plan.value("nested_callbacks", false);
     w.count(cw.supported ? "probe.threadsafe_supported" : "probe.threadsafe_not_supported");
     w.add_node(nullptr);
     cw.ctx = cx::new_context(w, 0);
@@ -201,6 +231,13 @@ struct C13 : Property {
                     return r;
                   });
     simk::K().hooks.block = [](int, std::function<bool()> ready, int64_t to_ms) { tsched::wait(std::move(ready), to_ms); };
+    Rng sig_rng(mix3(plan.value("sched_seed", 1ull), 0x516, 7));
+    double p_eintr = plan.value("eintr", 0.0);
+    simk::K().hooks.epoll_eintr = [&]() {
+      if (tsched::self() < 0 || p_eintr <= 0 || !sig_rng.chance(p_eintr)) return false;
+      w.count("fault.epoll_wait_eintr");
+      return true;
+    };
     simk::K().hooks.yield = [&](const char *what) {
       int me = tsched::self();
       if (me >= 0 && (!strcmp(what, "send") || !strcmp(what, "recv")) && tsched::locks_held_by(me) == 0)
@@ -362,6 +399,7 @@ struct C13 : Property {
       res.events = w.events;
       return;
     }
+    if (st.unlock_not_owner) res.violate("T.unlock_not_owner", "unlock_not_owner", strfmt("pthread_mutex_unlock() was called %llu time(s) by a thread that did not hold the mutex: that thread had been running library code without the lock", (unsigned long long)st.unlock_not_owner));
     if (tsched::locks_held_total() != 0) res.violate("T.lock_left_held", "at_end", strfmt("%d mutex(es) still held after every thread has finished", tsched::locks_held_total()));
     tsched::stop();
     simk::K().hooks.yield = nullptr;
